@@ -1,5 +1,7 @@
 // harness for xenium::left_right (C13, C16, C03)
-//   ops: read | update d
+//   ops: read | readref | update d
+//   readref: the functor returns a reference to the instance (const P&); read() is declared to return a value, so the
+//   caller's copy is taken while the reader is still registered - the caller then looks at x, then y, of what it got
 // T = {x, y}; an update adds d to x, then to y (two harness-level steps, so that a reader may
 // interleave between them if the protocol is broken); a read copies x, then y.
 #include "hx.hpp"
@@ -22,7 +24,7 @@ struct CounterSpec {
   State init = 0;
   bool apply(State& s, const OpRec& o) const {
     if (o.name == "update") { s += o.args[0]; return true; }
-    if (o.name == "read") { if (!o.done) return true; return o.res == std::to_string(s); }
+    if (o.name == "read" || o.name == "readref") { if (!o.done) return true; return o.res == std::to_string(s); }
     return false;
   }
   std::string key(const State& s) const { return std::to_string(s); }
@@ -53,6 +55,14 @@ struct LrAdapter : Adapter {
       xv::Quiet q;
       return x == y ? std::to_string(x) : "mixed:" + std::to_string(x) + "," + std::to_string(y);
     }
+    if (op.name == "readref") {
+      const P& r = lr->read([&](const P& p) -> const P& { xv::step_point(); return p; });
+      long x, y;
+      xv::step_point(); x = r.x;
+      xv::step_point(); y = r.y;
+      xv::Quiet q;
+      return x == y ? std::to_string(x) : "mixed:" + std::to_string(x) + "," + std::to_string(y);
+    }
     if (op.name == "update") {
       long d = op.args[0];
       lr->update([&](P& p) {
@@ -63,7 +73,7 @@ struct LrAdapter : Adapter {
     }
     return "?";
   }
-  bool lock_free(const Case&, const OpSpec& op) override { return op.name == "read"; }
+  bool lock_free(const Case&, const OpSpec& op) override { return op.name == "read" || op.name == "readref"; }
   void teardown(std::vector<std::string>& out) override {
     { xv::Quiet q; out.push_back("final " + std::to_string(lr->_left.x) + " " + std::to_string(lr->_left.y) + " " + std::to_string(lr->_right.x) + " " + std::to_string(lr->_right.y)); }
     delete lr;
@@ -71,7 +81,7 @@ struct LrAdapter : Adapter {
   bool check(const Case&, const std::vector<OpRec>& h, const std::vector<std::string>& fin, std::string& why) override {
     long total = 0;
     for (auto& o : h) {
-      if (o.name == "read" && o.done && o.res.rfind("mixed", 0) == 0) { why = "a read functor observed an instance in the middle of an update: " + o.res; return false; }
+      if ((o.name == "read" || o.name == "readref") && o.done && o.res.rfind("mixed", 0) == 0) { why = std::string(o.name == "read" ? "a read functor observed an instance in the middle of an update: " : "the value returned by read() is a mixture of two states: ") + o.res; return false; }
       if (o.name == "update" && o.done) total += o.args[0];
     }
     // every completed update applied exactly once to each instance
